@@ -85,6 +85,8 @@ UnionOK(e) == e.op \in {"path", "filter", "var", "call", "union"}
 Depth1 == Atoms \cup {NegE(x) : x \in Atoms} \cup {Bin(o, x, y) : o \in BinOps, x \in {A1, IntE(1), Var("", <<"v">>)}, y \in {A1, IntE(1), Var("", <<"v">>)}}
 Shapes == {Bin(o1, Bin(o2, A1, IntE(1)), Var("", <<"v">>)) : o1 \in BinOps, o2 \in BinOps} \cup {Bin(o1, A1, Bin(o2, IntE(1), Var("", <<"v">>))) : o1 \in BinOps, o2 \in BinOps}
           \cup {NegE(Bin(o, A1, IntE(1))) : o \in BinOps} \cup {Bin(o, NegE(A1), NegE(NegE(IntE(1)))) : o \in BinOps}
+          \* -(x op y) op z : the negated group is the LEFT operand of a further operator of the same or another level
+          \cup {Bin(o1, NegE(Bin(o2, IntE(1), Var("", <<"v">>))), IntE(1)) : o1 \in {"add", "sub", "mul", "div", "mod"}, o2 \in {"add", "sub", "mul", "div", "mod"}}
           \cup {Filter(Bin(o, A1, Var("", <<"v">>)), <<IntE(1)>>, <<>>) : o \in BinOps} \cup {Call(<<"c","o","n","c","a","t">>, <<x, Bin("or", x, x)>>) : x \in Atoms}
 RoundTrip == \A e \in Depth1 \cup Shapes : LET r == Parse(Unparse(e)) IN r.ok /\ r.e = e
 ASSUME RoundTrip
